@@ -25,3 +25,31 @@ func init() {
 			Old: "dst.Flags.Set(jsonflags.Unmarshalers | 1)", New: "dst.Flags.Set(jsonflags.Marshalers | 1)", Rule: "OPT-3"},
 	)
 }
+
+func init() {
+	addMutants(
+		// ---- C06/C05/C16/C20: TXN
+		Mutant{ID: "txn2-commit-buf-before-error-tail", Props: []string{"C06", "C16"}, File: "jsontext/encode.go", Func: "encoderState.WriteToken",
+			Old: "\tif err != nil {\n\t\treturn wrapSyntacticError(e, err, pos, +1)\n\t}\n\n\t// Finish off the buffer and store it back into e.\n\te.Buf = b\n",
+			New: "\te.Buf = b\n\tif err != nil {\n\t\treturn wrapSyntacticError(e, err, pos, +1)\n\t}\n", Rule: "TXN-2"},
+		Mutant{ID: "txn2-names-push-before-pushObject", Props: []string{"C06", "C16"}, File: "jsontext/encode.go", Func: "encoderState.WriteToken",
+			Old: "\t\tif err = e.Tokens.pushObject(); err != nil {\n\t\t\tbreak\n\t\t}\n\t\te.Names.push()\n",
+			New: "\t\te.Names.push()\n\t\tif err = e.Tokens.pushObject(); err != nil {\n\t\t\tbreak\n\t\t}\n", Rule: "TXN-2"},
+		Mutant{ID: "txn1-popObject-clears-before-checks", Props: []string{"C06", "C05"}, File: "jsontext/state.go", Func: "stateMachine.popObject",
+			Old: "\tswitch {\n\tcase !m.Last.isObject():", New: "\tm.Last.decrement()\n\tswitch {\n\tcase !m.Last.isObject():", Rule: "TXN-1"},
+		Mutant{ID: "txn3-drop-deferred-namespace-pop", Props: []string{"C06", "C12"}, File: "jsontext/encode.go", Func: "encoderState.reformatObject",
+			Old: "\t\tdefer e.Namespaces.pop()\n", New: "", Rule: "TXN-2"},
+		Mutant{ID: "txn2-decoder-append-before-consume", Props: []string{"C05", "C16"}, File: "jsontext/decode.go", Func: "decoderState.ReadToken",
+			Old: "\t\tif jsonwire.ConsumeNull(d.buf[pos:]) == 0 {", New: "\t\tif err = d.Tokens.appendLiteral(); err != nil {\n\t\t\treturn Token{}, wrapSyntacticError(d, err, pos, +1)\n\t\t}\n\t\tif jsonwire.ConsumeNull(d.buf[pos:]) == 0 {", Rule: "TXN-2"},
+		Mutant{ID: "txn2-revert-F3-WriteToken", Props: []string{"C06", "C16", "C20"}, File: "jsontext/encode.go", Func: "encoderState.WriteToken",
+			Old: "\t\t\tif !e.Tokens.Last.isValidNamespace() {\n\t\t\t\terr = errInvalidNamespace\n\t\t\t\tbreak\n\t\t\t}\n\t\t\tif !e.Flags.Get(jsonflags.AllowDuplicateNames) {\n",
+			New: "\t\t\tif !e.Flags.Get(jsonflags.AllowDuplicateNames) {\n\t\t\t\tif !e.Tokens.Last.isValidNamespace() {\n\t\t\t\t\terr = errInvalidNamespace\n\t\t\t\t\tbreak\n\t\t\t\t}\n", Rule: "TXN-2"},
+		Mutant{ID: "txn2-revert-F3-ReadValue", Props: []string{"C05", "C16"}, File: "jsontext/decode.go", Func: "decoderState.ReadValue",
+			Old: "\t\t\tif !d.Tokens.Last.isValidNamespace() {\n\t\t\t\terr = errInvalidNamespace\n\t\t\t\tbreak\n\t\t\t}\n\t\t\tif !d.Flags.Get(jsonflags.AllowDuplicateNames) {\n",
+			New: "\t\t\tif !d.Flags.Get(jsonflags.AllowDuplicateNames) {\n\t\t\t\tif !d.Tokens.Last.isValidNamespace() {\n\t\t\t\t\terr = errInvalidNamespace\n\t\t\t\t\tbreak\n\t\t\t\t}\n", Rule: "TXN-2"},
+		Mutant{ID: "txn2-peekkind-advances", Props: []string{"C05"}, File: "jsontext/decode.go", Func: "decoderState.PeekKind",
+			Old: "\td.peekPos, d.peekErr = pos, nil\n", New: "\td.peekPos, d.peekErr = pos, nil\n\td.prevEnd = pos\n", Rule: "TXN-2"},
+		Mutant{ID: "txn1-insert-commits-before-dup-check", Props: []string{"C06", "C08"}, File: "jsontext/state.go", Func: "objectNamespace.insert",
+			Old: "\tname = allNames[len(ns.allUnquotedNames):]\n", New: "\tname = allNames[len(ns.allUnquotedNames):]\n\tns.allUnquotedNames = allNames\n", Rule: "TXN-1"},
+	)
+}
